@@ -2,10 +2,15 @@
 # usage: seedtest.sh <seed-id> <property-id>...   — apply a seeded defect to /repo, run the quick
 # checks, undo it straight afterwards.  Prints one line per check.
 SEED="$1"; shift
-P=/verif/seeded/$SEED/patch.diff
+P=/verif/seeded/$SEED/patch.diff; [ -f /verif/seeded/$SEED/patch.rebased.diff ] && P=/verif/seeded/$SEED/patch.rebased.diff
 cd /repo || exit 2
 if ! git diff --quiet; then echo "seedtest: /repo has uncommitted changes"; exit 2; fi
-git apply "$P" 2>/dev/null || git apply --3way "$P" 2>/dev/null || { echo "SEEDTEST $SEED: patch does not apply to current HEAD"; git checkout -q -- .; exit 3; }
+if ! git apply "$P" 2>/dev/null; then
+  if ! git apply --3way "$P" >/dev/null 2>&1 || ! git diff --quiet --diff-filter=U 2>/dev/null || git status --short | grep -q '^UU'; then
+    echo "SEEDTEST $SEED: patch does not apply to current HEAD"; git reset -q --hard HEAD; exit 3
+  fi
+  git reset -q   # keep the merged result in the working tree only
+fi
 for id in "$@"; do
   out=$(cd /verif && bin/vcheck "$id" --tier quick 2>&1); rc=$?
   echo "SEEDTEST $SEED check=$id exit=$rc $(echo "$out" | grep -m1 -E 'VIOLATION|MACHINERY' )"
